@@ -175,6 +175,7 @@ func satisfiable(fs []Formula, m map[Atom]int8, budget *int) (bool, map[Atom]int
 // ---------- per function context ----------
 
 type entFn struct {
+	elemStores map[types.Object][]ast.Node // S[i] = v statements per local S
 	w       *World
 	root    *Func // outermost declaration (or package-level literal)
 	info    *types.Info
@@ -215,7 +216,7 @@ func (w *World) ent(f *Func) *entFn {
 	if e := entCache[root]; e != nil {
 		return e
 	}
-	e := &entFn{w: w, root: root, info: root.Pkg.TypesInfo, assigns: map[types.Object][]ast.Node{}, addrOf: map[types.Object]bool{}, addrInLit: map[types.Object]bool{}, axSeen: map[string]bool{}, atomObj: map[Atom][]types.Object{}, effEnd: map[ast.Node]token.Pos{}}
+	e := &entFn{w: w, root: root, info: root.Pkg.TypesInfo, assigns: map[types.Object][]ast.Node{}, elemStores: map[types.Object][]ast.Node{}, addrOf: map[types.Object]bool{}, addrInLit: map[types.Object]bool{}, axSeen: map[string]bool{}, atomObj: map[Atom][]types.Object{}, effEnd: map[ast.Node]token.Pos{}}
 	entCache[root] = e
 	info := e.info
 	record := func(x ast.Expr, at ast.Node) {
@@ -231,6 +232,25 @@ func (w *World) ent(f *Func) *entFn {
 		}
 		if fld := lastField(info, x); fld != nil {
 			e.fstores = append(e.fstores, fieldStore{fld, at})
+			return
+		}
+		// S[i] = v: the contents of the local S (or of the field that holds the slice) change
+		if ix, ok := unparen(x).(*ast.IndexExpr); ok {
+			base := unparen(ix.X)
+			for {
+				if inner, ok := base.(*ast.IndexExpr); ok {
+					base = unparen(inner.X)
+					continue
+				}
+				break
+			}
+			if id, ok := base.(*ast.Ident); ok {
+				if obj := info.Uses[id]; obj != nil {
+					e.elemStores[obj] = append(e.elemStores[obj], at)
+				}
+			} else if fld := lastField(info, base); fld != nil {
+				e.fstores = append(e.fstores, fieldStore{fld, at})
+			}
 		}
 	}
 	ast.Inspect(root.Node(), func(n ast.Node) bool {
@@ -420,6 +440,28 @@ func (e *entFn) version(obj types.Object, s site) string {
 	for _, l := range e.loops(s) {
 		for _, a := range e.assigns[obj] {
 			if l.Pos() <= a.Pos() && a.End() <= l.End() && a != l {
+				loop = l.Pos()
+			}
+		}
+		if loop != token.NoPos {
+			break
+		}
+	}
+	return fmt.Sprintf("%d/%d", loop, latest)
+}
+
+// elemVersion of the contents of a local slice/map at a site: like version, over the element stores S[i] = v.
+func (e *entFn) elemVersion(obj types.Object, s site) string {
+	latest := token.NoPos
+	for _, a := range e.elemStores[obj] {
+		if a.End() <= s.pos && a.Pos() > latest && !e.cannotFlowTo(a, s.pos) {
+			latest = a.Pos()
+		}
+	}
+	loop := token.NoPos
+	for _, l := range e.loops(s) {
+		for _, a := range e.elemStores[obj] {
+			if l.Pos() <= a.Pos() && a.End() <= l.End() {
 				loop = l.Pos()
 			}
 		}
@@ -672,13 +714,26 @@ func (k keyCtx) key(x ast.Expr) string {
 	case *ast.StarExpr:
 		return "*" + k.key(x.X)
 	case *ast.IndexExpr:
-		return k.key(x.X) + "[" + k.key(x.Index) + "]"
+		ev := ""
+		if id := identOf(x.X); id != nil {
+			if obj := e.info.Uses[id]; obj != nil && len(e.elemStores[obj]) > 0 {
+				ev = "~e" + e.elemVersion(obj, k.siteOf(x))
+			}
+		}
+		return k.key(x.X) + ev + "[" + k.key(x.Index) + "]"
 	case *ast.BasicLit:
 		return x.Value
 	case *ast.CallExpr:
 		args := []string{}
 		for _, a := range x.Args {
 			args = append(args, k.key(a))
+		}
+		// a conversion is a function of its operand; the number of characters of a string is the length of its []rune form
+		if tv, ok := e.info.Types[x.Fun]; ok && tv.IsType() && len(args) == 1 {
+			return "conv:" + typeStr(tv.Type) + "(" + args[0] + ")"
+		}
+		if callee := calleeOf(e.info, x); callee != nil && funcFullName(callee) == "unicode/utf8.RuneCountInString" && len(args) == 1 {
+			return "len(conv:" + typeStr(types.NewSlice(types.Universe.Lookup("rune").Type())) + "(" + args[0] + "))"
 		}
 		s := k.key(x.Fun) + "(" + strings.Join(args, ",") + ")"
 		if e.valueOnlyCall(x) {
@@ -717,6 +772,18 @@ func isAccessPath(info *types.Info, e ast.Expr) bool {
 			e = x.X
 			steps++
 		case *ast.StarExpr:
+			e = x.X
+			steps++
+		case *ast.IndexExpr:
+			// a constant element of a slice or array
+			if tv, ok := info.Types[x.Index]; !ok || tv.Value == nil {
+				return false
+			}
+			if tv, ok := info.Types[x.X]; ok {
+				if _, isMap := tv.Type.Underlying().(*types.Map); isMap {
+					return false
+				}
+			}
 			e = x.X
 			steps++
 		case *ast.Ident:
@@ -902,35 +969,7 @@ func (e *entFn) cond(k keyCtx, x ast.Expr, depth int) Formula {
 			return g
 		case token.LSS, token.GTR, token.LEQ, token.GEQ:
 			if tx, ok := e.info.Types[b.X]; ok && isIntType(tx.Type) {
-				l, r := ko.norm(b.X), ko.norm(b.Y)
-				op := b.Op
-				if l.isConst() && !r.isConst() { // c op E  ->  E op' c
-					l, r = r, l
-					op = map[token.Token]token.Token{token.LSS: token.GTR, token.GTR: token.LSS, token.LEQ: token.GEQ, token.GEQ: token.LEQ}[op]
-				}
-				if r.isConst() {
-					switch op {
-					case token.GTR:
-						return e.noteAtom(gtAtom(l, r.c), objs)
-					case token.GEQ:
-						return e.noteAtom(gtAtom(l, r.c-1), objs)
-					case token.LSS:
-						return Not{e.noteAtom(gtAtom(l, r.c-1), objs)}
-					case token.LEQ:
-						return Not{e.noteAtom(gtAtom(l, r.c), objs)}
-					}
-				}
-				ls, rs := l.String(), r.String()
-				switch op {
-				case token.LSS:
-					return e.noteAtom(Atom("lt("+ls+","+rs+")"), objs)
-				case token.GTR:
-					return e.noteAtom(Atom("lt("+rs+","+ls+")"), objs)
-				case token.LEQ:
-					return Not{e.noteAtom(Atom("lt("+rs+","+ls+")"), objs)}
-				case token.GEQ:
-					return Not{e.noteAtom(Atom("lt("+ls+","+rs+")"), objs)}
-				}
+				return e.cmpForms(ko.norm(b.X), ko.norm(b.Y), b.Op, objs)
 			}
 			ls, rs := ko.key(b.X), ko.key(b.Y)
 			switch b.Op {
@@ -956,6 +995,36 @@ func (e *entFn) cond(k keyCtx, x ast.Expr, depth int) Formula {
 		}
 	}
 	return e.noteAtom(Atom(ko.key(x)), objs)
+}
+
+// cmpForms: the formula of an integer comparison between two linear forms (the one cond builds for source comparisons).
+func (e *entFn) cmpForms(l, r linForm, op token.Token, objs []types.Object) Formula {
+	if l.isConst() && !r.isConst() { // c op E  ->  E op' c
+		l, r = r, l
+		op = map[token.Token]token.Token{token.LSS: token.GTR, token.GTR: token.LSS, token.LEQ: token.GEQ, token.GEQ: token.LEQ}[op]
+	}
+	if r.isConst() {
+		switch op {
+		case token.GTR:
+			return e.noteAtom(gtAtom(l, r.c), objs)
+		case token.GEQ:
+			return e.noteAtom(gtAtom(l, r.c-1), objs)
+		case token.LSS:
+			return Not{e.noteAtom(gtAtom(l, r.c-1), objs)}
+		case token.LEQ:
+			return Not{e.noteAtom(gtAtom(l, r.c), objs)}
+		}
+	}
+	ls, rs := l.String(), r.String()
+	switch op {
+	case token.LSS:
+		return e.noteAtom(Atom("lt("+ls+","+rs+")"), objs)
+	case token.GTR:
+		return e.noteAtom(Atom("lt("+rs+","+ls+")"), objs)
+	case token.LEQ:
+		return Not{e.noteAtom(Atom("lt("+rs+","+ls+")"), objs)}
+	}
+	return Not{e.noteAtom(Atom("lt("+ls+","+rs+")"), objs)}
 }
 
 func isTerminating(info *types.Info, s ast.Stmt) bool {
